@@ -200,14 +200,14 @@ class CanarySvc(Service):
 
 CAPPS = {}
 ATTACKS = ['internal entity in text', 'internal entity in mixed text', 'entity chain in text', 'internal entity in attribute',
-           'external entity in text', 'external DTD subset entity in attribute', 'parameter entity',
+           'external entity in text', 'external DTD subset entity in attribute', 'external DTD subset attribute default', 'parameter entity',
            'nesting bomb', 'entity expansion bomb in text', 'entity expansion bomb in attribute']
 
 
 @harness('C17', params=[(p, a) for p in sorted(PROTS) for a in ATTACKS], label=lambda p: '%s %s' % p,
          functions=['spyne.protocol.xml.XmlDocument.create_in_document', 'spyne.protocol.xml.XmlDocument.unicode_from_element',
                     'spyne.protocol.xml.XmlDocument.complex_from_element', 'spyne.protocol.soap.soap11._parse_xml_string'],
-         bounds={'attacks': 'ten concrete attack documents (entities: internal, chained, external, external DTD, parameter; nesting and expansion bombs) x transport charset given or not x encoding declaration present or not, per protocol through the real parser and deserialiser with default '
+         bounds={'attacks': 'eleven concrete attack documents (entities: internal, chained, external, external DTD, attribute defaults of an external DTD, parameter; nesting and expansion bombs) x validator None / soft / lxml x transport charset given or not x encoding declaration present or not, per protocol through the real parser and deserialiser with default '
                             'settings (concrete canaries; what libxml2 does is not modelled)'})
 def entity_canaries(sx, p):
     """with default settings the replacement text of an entity - internal, chained, external, from an external DTD
@@ -215,16 +215,18 @@ def entity_canaries(sx, p):
     pname, attack = p
     if not sx.symbolic or True:
         import tempfile, os
-        if pname not in CAPPS:
+        # the validator is part of the deployment: a schema-validating protocol builds its parser from the same options
+        validator = sx.choose('validator', [None, 'soft', 'lxml'])
+        if (pname, validator) not in CAPPS:
             P = PROTS[pname]
-            app = Application([CanarySvc], 'tns', in_protocol=P(), out_protocol=P())
-            CAPPS[pname] = (app, ServerBase(app))
-        app, server = CAPPS[pname]
+            app = Application([CanarySvc], 'tns', in_protocol=P(validator=validator), out_protocol=P())
+            CAPPS[pname, validator] = (app, ServerBase(app))
+        app, server = CAPPS[pname, validator]
         fd, path = tempfile.mkstemp(suffix='.txt')
         os.write(fd, b'FILE-CANARY-0815')
         os.close(fd)
         fd2, dtd = tempfile.mkstemp(suffix='.dtd')
-        os.write(fd2, b'<!ENTITY fromdtd "DTD-CANARY-0815">')
+        os.write(fd2, b'<!ENTITY fromdtd "DTD-CANARY-0815"><!ATTLIST t label CDATA "DTD-CANARY-0815">')
         os.close(fd2)
         try:
             s_el, t_el = '<s>plain</s>', '<t label="l"><body>b</body></t>'
@@ -241,6 +243,8 @@ def entity_canaries(sx, p):
                 doctype, s_el = '<!DOCTYPE echo [<!ENTITY x SYSTEM "file://%s">]>' % path, '<s>a&x;b</s>'
             elif attack == 'external DTD subset entity in attribute':
                 doctype, t_el = '<!DOCTYPE echo SYSTEM "file://%s">' % dtd, '<t label="v&fromdtd;"><body>b</body></t>'
+            elif attack == 'external DTD subset attribute default':
+                doctype, t_el = '<!DOCTYPE echo SYSTEM "file://%s">' % dtd, '<t><body>b</body></t>'
             elif attack == 'parameter entity':
                 doctype = '<!DOCTYPE echo [<!ENTITY %% p SYSTEM "file://%s"> %%p;]>' % dtd
                 s_el = '<s>a&fromdtd;b</s>'
